@@ -97,6 +97,13 @@ CHECKS.update({
    note="Trusted: TLC; renderer-call counts stand for running time (tree-sitter's parse time taken as linear); 5 s CPU guard per case, a trip is reported as a violation. RecursionError beyond Python's recursion limit (operator chains > a few hundred terms) is outside the bound.",
    tech="TLA+ work recurrence (TLC-checked separating test) + TLC-judged measured call counts; TLC-judged error classes on enumerated faults"),
 })
+CHECKS.update({
+ "C15": dict(engine="proc", cat="model_checking", ref="DESIGN.md §7 C15",
+   text="Proc.tla models threads at the granularity of the hooked accesses to process-wide state (thread-local parser, source-bytes context variable); TLC proves C15_Isolation / C15_ParserExclusive for the design over all interleavings of 2 (thorough: 3) threads and refutes them for the module-level-parser and module-level-bytes designs. All 924 schedules are replayed with real threads by a cooperative scheduler driven through the guarded hooks and compared with the serial run; the recorded hook events of those runs and of 8 free-running threads are validated by TLC (Proc_Trace). Purity (deep snapshot and text around two rebuilds), processing-order independence in one process and 6 fresh processes (hash seeds x working directories) complete the check.",
+   note="Trusted: TLC; the cooperative scheduler; CPython's GIL between two hook points (data races inside one bytecode-atomic step or inside the tree-sitter C library are not modelled). Hooks: guard NIMA_VERIF, add-only.",
+   tech="TLA+ thread model (TLC, mutant designs refuted) + deterministic replay of TLC schedules on real threads + TLC trace validation of hook events"),
+})
+CHECKS["C10"]["text"] += " The histories half: Registry.tla models the identity-keyed context registry with object lifetimes, address reuse and delayed death callbacks (TLC: C10_NoStaleContext holds, refuted without the identity check); create / resolve / discard histories of several documents are run with the guarded hooks and an independent lifetime monitor and validated by TLC (Registry_Trace): every hit returns the context stored for that very object, no result from another document."
 import os
 built = {p: m for p, m in CHECKS.items()}
 checks = []
@@ -140,6 +147,8 @@ man = {
     "kind_free_text": "spec/Values.tla + MC_Values (values x routes) -> real construction API -> spec/Values_Trace.tla"},
    {"name": "robust", "path": "harness/engines/robust.py", "serves_properties": ["C07", "C20"],
     "kind_free_text": "spec/Damage.tla (faults) + spec/Work.tla (nesting families) -> real library / CLI, renderer-call counters -> spec/Robust.tla, spec/Work_Trace.tla"},
+   {"name": "proc", "path": "harness/engines/proc.py", "serves_properties": ["C15"],
+    "kind_free_text": "spec/Proc.tla (threads x hook points) -> harness/sched.py cooperative scheduler on real threads, free-running threads, fresh processes -> spec/Proc_Trace.tla"},
  ],
  "checks": checks,
  "notes": "All checks: ./check <ID> [--tier quick|thorough]; VERIF_SEED / VERIF_TIER honoured. Known findings: known_findings.json. See DESIGN.md.",
